@@ -469,7 +469,7 @@ func c17Hostile(v string) Case {
 
 func init() {
 	register(&Prop{
-		ID:   "C17",
+		ID: "C17",
 		Corpus: func() []Case {
 			return []Case{c17Hostile("\nleading newline"), c17Hostile("\t\nx"), c17Hostile("plain\nmulti")}
 		},
